@@ -101,6 +101,13 @@ func (state *singleRateLimitState) Counter() int64 {
 	state.mutex.Lock()
 	defer state.mutex.Unlock()
 
+	// A state is registered before its first TryToIncrement stores the window
+	// data, so a metrics collection can get here first: there is no window to
+	// bring up to date yet (and ensureWindowIsUpdated would divide by zero).
+	if state.windowData.WindowSize == 0 {
+		return state.counter
+	}
+
 	state.ensureWindowIsUpdated()
 	return state.counter
 }
